@@ -1,5 +1,7 @@
 """C06 — XPath parsing and evaluation are total."""
 import e1
+import e4
+import re
 import e2
 import entries
 import reasons_e1
@@ -91,4 +93,79 @@ def run(facts, tier):
     c03.r03_3(facts, res, "R06-4", reach, reasons_e1.scc_reasons(facts, reach))
     import guards
     guards.rule(facts, res, "R06-4g", [facts.fns[x] for x in reach if x in facts.fns], want=("G1", "G2"), floor=1)
+    r06_5(facts, res, reach)
     return res
+
+
+def _root_local(facts, f, defs, op, depth=0):
+    """The local an operand is a copy / reborrow of (parameters end the chain)."""
+    l = e1.local_of(op)
+    if l is None or depth > 8:
+        return None
+    if 1 <= l <= f["mir"]["argc"]:
+        return l
+    ds = defs.get(l, [])
+    if len(ds) != 1:
+        return l
+    kind, _, x = ds[0]
+    if kind == "stmt" and x["rv"] in ("Use", "Ref", "CopyForDeref", "Cast") and x.get("ops"):
+        o = x["ops"][0]
+        if isinstance(o, str):
+            m = re.match(r"^\(?\*?_(\d+)\)?$", o)
+            if m:
+                return _root_local(facts, f, defs, {"k": "copy", "l": int(m.group(1))}, depth + 1) if False else int(m.group(1))
+            return l
+        return _root_local(facts, f, defs, o, depth + 1)
+    return l
+
+
+def r06_5(facts, res, reach):
+    """A function of the recursive evaluator that evaluates the *same* sub-expression twice on one path doubles the work at
+    every nesting level: nested predicates / parentheses then cost 2^depth.  For every function on a recursion cycle: no two
+    call sites into the cycle take the same expression operand with one reachable from the other."""
+    import re as _re
+    st = res.rule("R06-5", instances=0)
+    for comp in e1.recursive_sccs(facts, reach):
+        cset = set(comp)
+        for fid in comp:
+            f = facts.fns[fid]
+            if f["crate"] != "xml_xpath" or "mir" not in f or not f["path"].startswith("xml_xpath::eval::"):
+                continue
+            defs = e1.def_sites(facts, f)
+            succ = e1.cfg(facts, f)
+            dom, _ = e1.dominators(succ)
+            groups = {}
+            for bi, t in facts.mir_calls(f):
+                c = t.get("callee")
+                if not c or not t.get("args"):
+                    continue
+                cid = facts.callee_id(c)
+                if cid not in cset:
+                    continue
+                # the expression operand: first argument whose type is a reference to an expr:: model type
+                root = None
+                for a in t["args"]:
+                    l = e1.local_of(a)
+                    if l is not None and "expr::" in str(f["mir"]["locals"][l].get("ty", "")):
+                        root = _root_local(facts, f, defs, a)
+                        break
+                if root is None:
+                    continue
+                groups.setdefault((cid, root), []).append((bi, t))
+            for (cid, root), sites in groups.items():
+                st["instances"] += 1
+                bad = None
+                for i in range(len(sites)):
+                    for j in range(len(sites)):
+                        # site i is executed before site j on every path to j (two arms of a match in a loop do not count:
+                        # they meet only in different iterations, with a different operand)
+                        if i != j and sites[i][0] != sites[j][0] and sites[i][0] in dom.get(sites[j][0], ()):
+                            bad = (sites[i], sites[j])
+                res.oblige(1, bad is None)
+                if bad:
+                    res.add(Finding("R06-5", "%s|%s" % (f["path"], facts.fns[cid]["path"].split("::")[-1]),
+                                    "%s evaluates the same sub-expression twice on one path (calls of %s at lines %s and %s): the cost doubles "
+                                    "with every nesting level" % (f["path"], facts.fns[cid]["path"], bad[0][1].get("ln"), bad[1][1].get("ln")),
+                                    f["file"], bad[1][1].get("ln"), {}))
+    if st["instances"] < 10:
+        raise BrokenCheck("R06-5: %d recursive evaluator call groups (floor 10)" % st["instances"])
